@@ -325,6 +325,8 @@ def c15_3(rep, ix):
     E = common.eff(rep)
     n = 0
     for q, evs in sorted(E.events.items()):
+        if q in getattr(ix, "absorbed", ()):
+            continue            # a private helper read into all of its callers: judged there, in context
         f = ix.funcs[q]
         for e in evs:
             if "GLOBAL:auxiliary._PARAMS" not in e.target.self_o or e.via is not None:
@@ -354,7 +356,8 @@ def c15_3(rep, ix):
                         ok = False
                         why = "registers the name `%s` as a p-array outside the array declaration handler (a scalar named like a p-array is then refused / passed by name)" % rt[:40]
                 elif a == "extend":
-                    ok = in_param_array_branch(f.node, st) and arg is not None and "final_value" in u(arg)
+                    from .c08 import is_symbol_grid
+                    ok = in_param_array_branch(f.node, st) and arg is not None and is_symbol_grid(f.node, st, arg)
                     why = "extends with `%s` outside the whole-array expansion" % rt[:60]
                 elif a == "remove":
                     ok = in_param_array_branch(f.node, st) and rt.startswith("parameters[0][1]") or u(arg) == "parameters[0][1]"
